@@ -26,6 +26,7 @@ type caseResult struct {
 	gethCompared int
 	fatal        []string
 	lostInflight int
+	retried      bool
 	lost         map[int]bool // indices of emitted logs that were in flight at a connection drop and never came out
 }
 
@@ -34,6 +35,16 @@ var drvMu sync.Mutex
 func evalCase(c *Case, drv *lib.Driver, guard bool) *caseResult {
 	cr := &caseResult{c: c}
 	cr.obs = runCase(c)
+	// a barrier deadline can expire on an overloaded machine: the case is run again (twice at
+	// most); only a case that stalls every time is reported (as a harness failure, never green)
+	for try := 0; try < 2 && cr.obs.Stalled != "" && !strings.HasPrefix(cr.obs.Stalled, "skipped"); try++ {
+		again := runCase(c)
+		if again.Stalled == "" {
+			stalls.Add(-1)
+			cr.retried = true
+		}
+		cr.obs = again
+	}
 	cr.an = linearise(c, cr.obs, guard)
 	if cr.obs.Panic != "" {
 		cr.findings = append(cr.findings, finding{sig: "l1-client-panics", what: cr.obs.Panic})
@@ -69,6 +80,9 @@ func evalCase(c *Case, drv *lib.Driver, guard bool) *caseResult {
 		want := s.expect
 		if want == "" {
 			want = "ok"
+		}
+		if strings.Contains(s.what, "failing database") && faultAnswerOK(outs[i], want) {
+			continue
 		}
 		if outs[i] != want {
 			cr.mismatches = append(cr.mismatches, lib.Mismatch{Sig: "model-vs-client: " + orStr(s.what, "op"),
@@ -130,7 +144,29 @@ func evalCase(c *Case, drv *lib.Driver, guard bool) *caseResult {
 			}
 			got = strings.Join(xs, ",")
 		}
-		if fo[len(fo)-1] != got {
+		ok := fo[len(fo)-1] == got
+		if !ok && cr.obs.DBFaultHead != nil {
+			// a store-first order does not send the head whose write failed
+			var alt []HeadJ
+			skipped := false
+			for _, h := range cr.obs.FeedSent {
+				if !skipped && h == *cr.obs.DBFaultHead {
+					skipped = true
+					continue
+				}
+				alt = append(alt, h)
+			}
+			al := []string{"feednew"}
+			for _, h := range alt {
+				al = append(al, fmt.Sprintf("feedsend %x %x %x", h.L2, h.Hash, h.Root))
+			}
+			al = append(al, "feedrecv", "feedgot")
+			drvMu.Lock()
+			ao, err := drv.AskAll(al)
+			drvMu.Unlock()
+			ok = err == nil && ao[len(ao)-1] == got
+		}
+		if !ok {
 			cr.mismatches = append(cr.mismatches, lib.Mismatch{Sig: "feed-subscriber: idle subscriber differs from the model",
 				Input: c, Model: fo[len(fo)-1], Impl: got})
 		}
@@ -138,6 +174,10 @@ func evalCase(c *Case, drv *lib.Driver, guard bool) *caseResult {
 	if c.DBFault != "" && cr.obs.DBFaultFired && !headEq(headAfterMark(cr, cr.obs.DBFaultMark), lastHeadBeforeFault(cr)) {
 		cr.findings = append(cr.findings, finding{sig: "l1head-changed-by-a-failed-database-operation",
 			what: "the stored head changed although the read / write of the stored head failed"})
+	}
+	if cr.an.faultNotes > 0 && c.DBFault == "w" {
+		cr.findings = append(cr.findings, finding{sig: "l1head-listener-notified-of-a-head-that-was-not-stored",
+			what: "the write of the stored L1 head failed, yet the listener was told about the new head and the client went on"})
 	}
 	liveFault := cr.obs.DBFaultFired && cr.obs.DBFaultMark >= 0 && cr.obs.DBFaultMark < len(cr.obs.Marks) && !cr.obs.Marks[cr.obs.DBFaultMark].PreWatch
 	if cr.obs.EndedEarly && !c.ChainIDMismatch && !liveFault {
@@ -188,6 +228,25 @@ func lastHeadBeforeFault(cr *caseResult) *HeadJ {
 		return cr.obs.Marks[i].HeadBefore
 	}
 	return cr.c.Stored
+}
+
+// faultAnswerOK: under a failing database head and fatal must be what the model says; the value
+// on the feed may be the model's (sent before the failing write) or none (a store-first order).
+func faultAnswerOK(model, observed string) bool {
+	mf, of := strings.Fields(model), strings.Fields(observed)
+	if len(mf) != len(of) {
+		return false
+	}
+	for i := range mf {
+		if mf[i] == of[i] {
+			continue
+		}
+		if strings.HasPrefix(mf[i], "feed=") && of[i] == "feed=none" {
+			continue
+		}
+		return false
+	}
+	return true
 }
 
 func headAfterMark(cr *caseResult, i int) *HeadJ {
@@ -630,6 +689,9 @@ func main() {
 		}
 		for _, ft := range cr.fatal {
 			res.Fatalf("%s", ft)
+		}
+		if cr.retried {
+			res.Hit("harness:case-re-run-after-a-barrier-timeout")
 		}
 		if len(o.Notes) > 0 {
 			res.Sample(8, map[string]any{"case": c.Name, "ops": len(c.Ops), "events": len(o.Events), "polls": countKind(o.Marks, "tick"),
